@@ -2,7 +2,7 @@
 import json,collections,sys
 c=collections.Counter(); tags=collections.Counter(); ex={}
 for l in open(sys.argv[1]):
-    r=json.loads(l)
+    r=json.loads(l); r.pop('sig',None)
     c['agree' if r['agree'] else 'disagree']+=1
     for k,v in r['props'].items(): c[k+('+' if v else '-')]+=1
     for t in r['tags']: tags[t]+=1
